@@ -1,0 +1,591 @@
+//! Verification seams, compiled only with the cargo feature `verif`.
+//!
+//! Nothing in here changes behaviour unless a harness installs something: with no scheduler,
+//! no clock override, no capacity override and an open GC gate, every hook is a cheap no-op.
+//!
+//! - `Sched`: controlled-scheduler interface. Instrumented code calls `point(..)` *before* the
+//!   operation named `op`; the scheduler returns when that operation may proceed.
+//! - `Hooks`: per-`Store` (shared by its clones) scheduler slot, read-id counter, GC gate and
+//!   GC-queue mirror, and the alive token used to wait for a store to be fully closed.
+//! - channel endpoint wrappers (`Tx`, `BRx`, `DoneTx`, `DoneRx`) exposing the same methods as the
+//!   tokio endpoints used by `Store::read`, each calling `point` first.
+//! - process-global clock override (`is_expired`) and channel capacity overrides.
+
+use std::collections::VecDeque;
+use std::future::{Future, IntoFuture};
+use std::pin::Pin;
+use std::sync::atomic::{AtomicBool, AtomicU64, AtomicUsize, Ordering};
+use std::sync::{Arc, Condvar, Mutex, RwLock};
+
+use tokio::sync::{broadcast, mpsc, oneshot};
+
+use crate::store::Frame;
+
+/// Identity of an actor as seen by the scheduler.
+#[derive(Clone, Copy, Debug, PartialEq, Eq, Hash, PartialOrd, Ord)]
+pub struct Who {
+    pub kind: &'static str,
+    pub n: u128,
+}
+
+impl Who {
+    pub const fn new(kind: &'static str, n: u128) -> Who {
+        Who { kind, n }
+    }
+}
+
+pub struct Point<'a> {
+    pub op: &'static str,
+    /// None: the calling thread is not a managed actor (the scheduler may still observe).
+    pub who: Option<Who>,
+    pub frame: Option<&'a Frame>,
+    /// Evaluates, on the caller's thread, whether the operation could complete now.
+    pub ready: &'a (dyn Fn() -> bool + 'a),
+}
+
+pub trait Sched: Send + Sync {
+    /// Called before the operation `p.op`. Returns when granted.
+    fn point(&self, p: &Point<'_>);
+    /// An actor is about to be spawned by the running actor.
+    fn spawned(&self, who: Who);
+    /// The actor's body has ended (drop guard).
+    fn finished(&self, who: Who);
+}
+
+thread_local! {
+    static ACTOR: std::cell::Cell<Option<Who>> = const { std::cell::Cell::new(None) };
+}
+
+/// Declare the current OS thread to be the managed actor `who` (or none).
+pub fn set_actor(who: Option<Who>) {
+    ACTOR.with(|a| a.set(who));
+}
+
+pub fn current_actor() -> Option<Who> {
+    ACTOR.with(|a| a.get())
+}
+
+// ---- process-global seams ---------------------------------------------------------------
+
+static CLOCK_MS: AtomicU64 = AtomicU64::new(0);
+static CAP_BROADCAST: AtomicUsize = AtomicUsize::new(0);
+static CAP_DELIVERY: AtomicUsize = AtomicUsize::new(0);
+
+/// Wall-clock override (ms since the epoch) used by `is_expired`; `None` = real clock.
+pub fn set_clock(ms: Option<u64>) {
+    CLOCK_MS.store(ms.unwrap_or(0), Ordering::SeqCst);
+}
+
+pub fn clock_override() -> Option<u64> {
+    match CLOCK_MS.load(Ordering::SeqCst) {
+        0 => None,
+        v => Some(v),
+    }
+}
+
+/// Capacity overrides for the broadcast channel (`Store::new`) and the delivery channel
+/// (`Store::read`); `None` = the production constants.
+pub fn set_caps(broadcast: Option<usize>, delivery: Option<usize>) {
+    CAP_BROADCAST.store(broadcast.unwrap_or(0), Ordering::SeqCst);
+    CAP_DELIVERY.store(delivery.unwrap_or(0), Ordering::SeqCst);
+}
+
+pub fn broadcast_cap() -> Option<usize> {
+    match CAP_BROADCAST.load(Ordering::SeqCst) {
+        0 => None,
+        v => Some(v),
+    }
+}
+
+pub fn delivery_cap() -> Option<usize> {
+    match CAP_DELIVERY.load(Ordering::SeqCst) {
+        0 => None,
+        v => Some(v),
+    }
+}
+
+/// Replace a freshly created delivery channel by one with the overridden capacity, if any.
+pub fn delivery_channel<T>(
+    tx: mpsc::Sender<T>,
+    rx: mpsc::Receiver<T>,
+) -> (mpsc::Sender<T>, mpsc::Receiver<T>) {
+    match delivery_cap() {
+        Some(n) => mpsc::channel(n),
+        None => (tx, rx),
+    }
+}
+
+/// Run a blocking wait from wherever we are (OS thread, runtime worker, `block_on` thread).
+fn blocking<R>(f: impl FnOnce() -> R) -> R {
+    match tokio::runtime::Handle::try_current() {
+        Ok(h) if h.runtime_flavor() == tokio::runtime::RuntimeFlavor::MultiThread => {
+            tokio::task::block_in_place(f)
+        }
+        _ => f(),
+    }
+}
+
+// ---- per-store hooks --------------------------------------------------------------------
+
+#[derive(Default)]
+struct GateState {
+    gated: bool,
+    permits: u64,
+    processed: u64,
+    pending: VecDeque<String>,
+    in_hand: Option<String>,
+}
+
+struct Inner {
+    sched: RwLock<Option<Arc<dyn Sched>>>,
+    reads: AtomicU64,
+    gate: Mutex<GateState>,
+    gate_cv: Condvar,
+    // must stay the last field: dropped after everything else of the last `Store` clone
+    alive: Arc<()>,
+}
+
+#[derive(Clone)]
+pub struct Hooks {
+    inner: Arc<Inner>,
+}
+
+impl Default for Hooks {
+    fn default() -> Self {
+        Hooks {
+            inner: Arc::new(Inner {
+                sched: RwLock::new(None),
+                reads: AtomicU64::new(0),
+                gate: Mutex::new(GateState::default()),
+                gate_cv: Condvar::new(),
+                alive: Arc::new(()),
+            }),
+        }
+    }
+}
+
+/// What the GC worker is about to do (mirrors the private `GCTask`).
+pub enum GcKind<'a> {
+    Remove(&'a scru128::Scru128Id),
+    CheckHead {
+        context_id: &'a scru128::Scru128Id,
+        topic: &'a str,
+        keep: u32,
+    },
+    Drain,
+    Stop,
+}
+
+impl GcKind<'_> {
+    fn label(&self) -> String {
+        match self {
+            GcKind::Remove(id) => format!("remove {}", id),
+            GcKind::CheckHead {
+                context_id,
+                topic,
+                keep,
+            } => format!("head {} {:?} {}", context_id, topic, keep),
+            GcKind::Drain => "drain".to_string(),
+            GcKind::Stop => "stop".to_string(),
+        }
+    }
+}
+
+impl Hooks {
+    pub fn install(&self, sched: Option<Arc<dyn Sched>>) {
+        *self.inner.sched.write().unwrap() = sched;
+    }
+
+    pub fn sched(&self) -> Option<Arc<dyn Sched>> {
+        self.inner.sched.read().unwrap().clone()
+    }
+
+    /// A weak handle that dies when the last clone of the owning `Store` has been dropped
+    /// (and, because the hooks are the store's last field, after its keyspace was dropped).
+    pub fn alive_token(&self) -> std::sync::Weak<()> {
+        Arc::downgrade(&self.inner.alive)
+    }
+
+    /// Scheduling point for synchronous store operations; identity = thread-local actor.
+    pub fn point(&self, op: &'static str, frame: Option<&Frame>) {
+        if let Some(s) = self.sched() {
+            let p = Point {
+                op,
+                who: current_actor(),
+                frame,
+                ready: &|| true,
+            };
+            blocking(|| s.point(&p));
+        }
+    }
+
+    /// Scheduling point with an explicit identity (tasks that have no thread of their own).
+    pub fn point_as(&self, op: &'static str, who: Who, frame: Option<&Frame>) {
+        if let Some(s) = self.sched() {
+            let p = Point {
+                op,
+                who: Some(who),
+                frame,
+                ready: &|| true,
+            };
+            blocking(|| s.point(&p));
+        }
+    }
+
+    /// Scheduling point in front of `mutex.lock()`: enabled iff the real mutex is free.
+    pub fn point_lock<T>(&self, op: &'static str, mutex: &Mutex<T>) {
+        if let Some(s) = self.sched() {
+            let p = Point {
+                op,
+                who: current_actor(),
+                frame: None,
+                ready: &|| mutex.try_lock().is_ok(),
+            };
+            blocking(|| s.point(&p));
+        }
+    }
+
+    pub fn spawned(&self, who: Who) {
+        if let Some(s) = self.sched() {
+            s.spawned(who);
+        }
+    }
+
+    pub fn guard(&self, who: Who) -> ActorGuard {
+        ActorGuard {
+            sched: self.sched(),
+            who,
+        }
+    }
+
+    /// Start of a `Store::read`: managed iff a scheduler is installed and the caller is an actor.
+    pub fn begin_read(&self) -> ReadCtx {
+        let sched = match current_actor() {
+            Some(_) => self.sched(),
+            None => None,
+        };
+        let id = match sched {
+            Some(_) => self.inner.reads.fetch_add(1, Ordering::SeqCst) + 1,
+            None => 0,
+        };
+        ReadCtx { sched, id }
+    }
+
+    // ---- GC gate ----
+
+    /// Close (or open) the gate in front of the GC worker. While gated the worker handles one
+    /// dequeued task per permit.
+    pub fn gc_set_gated(&self, gated: bool) {
+        let mut g = self.inner.gate.lock().unwrap();
+        g.gated = gated;
+        self.inner.gate_cv.notify_all();
+    }
+
+    /// Labels of the tasks that were enqueued and not yet handled, oldest first.
+    pub fn gc_pending(&self) -> Vec<String> {
+        let g = self.inner.gate.lock().unwrap();
+        g.in_hand.iter().chain(g.pending.iter()).cloned().collect()
+    }
+
+    /// Let the worker handle exactly one task and wait until it has done so.
+    /// Returns false if nothing is pending.
+    pub fn gc_step(&self) -> bool {
+        let mut g = self.inner.gate.lock().unwrap();
+        if g.in_hand.is_none() && g.pending.is_empty() {
+            return false;
+        }
+        let target = g.processed + 1;
+        g.permits += 1;
+        self.inner.gate_cv.notify_all();
+        while g.processed < target {
+            g = self.inner.gate_cv.wait(g).unwrap();
+        }
+        true
+    }
+
+    pub fn gc_enqueued(&self, kind: GcKind<'_>) {
+        let mut g = self.inner.gate.lock().unwrap();
+        g.pending.push_back(kind.label());
+    }
+
+    /// Called by the worker with the task it just dequeued; blocks while gated without permit.
+    pub fn gc_gate(&self, kind: GcKind<'_>) {
+        let mut g = self.inner.gate.lock().unwrap();
+        let label = g.pending.pop_front().unwrap_or_else(|| kind.label());
+        g.in_hand = Some(label);
+        self.inner.gate_cv.notify_all();
+        if matches!(kind, GcKind::Stop) {
+            return;
+        }
+        while g.gated && g.permits == 0 {
+            g = self.inner.gate_cv.wait(g).unwrap();
+        }
+        if g.gated {
+            g.permits -= 1;
+        }
+    }
+
+    /// Called by the worker after it handled a task.
+    pub fn gc_done(&self) {
+        let mut g = self.inner.gate.lock().unwrap();
+        g.in_hand = None;
+        g.processed += 1;
+        self.inner.gate_cv.notify_all();
+    }
+}
+
+pub struct ActorGuard {
+    sched: Option<Arc<dyn Sched>>,
+    who: Who,
+}
+
+impl Drop for ActorGuard {
+    fn drop(&mut self) {
+        if let Some(s) = &self.sched {
+            s.finished(self.who);
+        }
+    }
+}
+
+// ---- Store::read instrumentation ----------------------------------------------------------
+
+#[derive(Clone)]
+pub struct ReadCtx {
+    sched: Option<Arc<dyn Sched>>,
+    pub id: u64,
+}
+
+impl ReadCtx {
+    pub fn hist(&self) -> Who {
+        Who::new("hist", self.id as u128)
+    }
+    pub fn live(&self) -> Who {
+        Who::new("live", self.id as u128)
+    }
+    pub fn beat(&self) -> Who {
+        Who::new("beat", self.id as u128)
+    }
+
+    pub fn spawned(&self, who: Who) {
+        if let Some(s) = &self.sched {
+            s.spawned(who);
+        }
+    }
+
+    pub fn guard(&self, who: Who) -> ActorGuard {
+        ActorGuard {
+            sched: self.sched.clone(),
+            who,
+        }
+    }
+
+    /// Point of the caller of `read` (thread-local identity).
+    pub fn point(&self, op: &'static str) {
+        if let Some(s) = &self.sched {
+            let p = Point {
+                op,
+                who: current_actor(),
+                frame: None,
+                ready: &|| true,
+            };
+            blocking(|| s.point(&p));
+        }
+    }
+
+    pub fn point_as(&self, op: &'static str, who: Who) {
+        if let Some(s) = &self.sched {
+            let p = Point {
+                op,
+                who: Some(who),
+                frame: None,
+                ready: &|| true,
+            };
+            blocking(|| s.point(&p));
+        }
+    }
+
+    pub fn tx<T>(&self, inner: mpsc::Sender<T>) -> Tx<T> {
+        Tx {
+            inner,
+            ctx: self.clone(),
+            who: None,
+            op: "send",
+        }
+    }
+
+    pub fn brx<T: Clone>(&self, inner: broadcast::Receiver<T>) -> BRx<T> {
+        BRx {
+            inner,
+            ctx: self.clone(),
+            who: self.live(),
+        }
+    }
+
+    pub fn done<T>(
+        &self,
+        tx: oneshot::Sender<T>,
+        rx: oneshot::Receiver<T>,
+    ) -> (DoneTx<T>, DoneRx<T>) {
+        let flag = Arc::new(AtomicBool::new(false));
+        (
+            DoneTx {
+                inner: Some(tx),
+                flag: flag.clone(),
+                ctx: self.clone(),
+                who: self.hist(),
+            },
+            DoneRx {
+                inner: rx,
+                flag,
+                ctx: self.clone(),
+                who: self.live(),
+            },
+        )
+    }
+}
+
+/// `mpsc::Sender` look-alike used inside `Store::read`.
+pub struct Tx<T> {
+    inner: mpsc::Sender<T>,
+    ctx: ReadCtx,
+    who: Option<Who>,
+    op: &'static str,
+}
+
+impl<T> Clone for Tx<T> {
+    fn clone(&self) -> Self {
+        Tx {
+            inner: self.inner.clone(),
+            ctx: self.ctx.clone(),
+            who: self.who,
+            op: self.op,
+        }
+    }
+}
+
+impl<T> Tx<T> {
+    /// Assign the actor that uses this endpoint.
+    pub fn role(mut self, who: Who, op: &'static str) -> Self {
+        self.who = Some(who);
+        self.op = op;
+        self
+    }
+
+    fn point(&self) {
+        if let (Some(s), Some(who)) = (&self.ctx.sched, self.who) {
+            let inner = &self.inner;
+            let p = Point {
+                op: self.op,
+                who: Some(who),
+                frame: None,
+                ready: &|| inner.capacity() > 0 || inner.is_closed(),
+            };
+            blocking(|| s.point(&p));
+        }
+    }
+
+    pub async fn send(&self, value: T) -> Result<(), mpsc::error::SendError<T>> {
+        self.point();
+        self.inner.send(value).await
+    }
+
+    pub fn blocking_send(&self, value: T) -> Result<(), mpsc::error::SendError<T>> {
+        self.point();
+        self.inner.blocking_send(value)
+    }
+}
+
+/// `broadcast::Receiver` look-alike used by the live task of `Store::read`.
+pub struct BRx<T> {
+    inner: broadcast::Receiver<T>,
+    ctx: ReadCtx,
+    who: Who,
+}
+
+impl<T: Clone> BRx<T> {
+    pub async fn recv(&mut self) -> Result<T, broadcast::error::RecvError> {
+        if let Some(s) = &self.ctx.sched {
+            let inner = &self.inner;
+            let p = Point {
+                op: "live.recv",
+                who: Some(self.who),
+                frame: None,
+                ready: &|| !inner.is_empty(),
+            };
+            blocking(|| s.point(&p));
+        }
+        self.inner.recv().await
+    }
+}
+
+/// `oneshot::Sender` look-alike: records "sent or dropped" so the receiver's point can be
+/// evaluated without touching the channel.
+pub struct DoneTx<T> {
+    inner: Option<oneshot::Sender<T>>,
+    flag: Arc<AtomicBool>,
+    ctx: ReadCtx,
+    who: Who,
+}
+
+impl<T> DoneTx<T> {
+    pub fn send(mut self, value: T) -> Result<(), T> {
+        if let Some(s) = &self.ctx.sched {
+            let p = Point {
+                op: "hist.done",
+                who: Some(self.who),
+                frame: None,
+                ready: &|| true,
+            };
+            blocking(|| s.point(&p));
+        }
+        let r = self.inner.take().unwrap().send(value);
+        self.flag.store(true, Ordering::SeqCst);
+        r
+    }
+}
+
+impl<T> Drop for DoneTx<T> {
+    fn drop(&mut self) {
+        drop(self.inner.take());
+        self.flag.store(true, Ordering::SeqCst);
+    }
+}
+
+pub struct DoneRx<T> {
+    inner: oneshot::Receiver<T>,
+    flag: Arc<AtomicBool>,
+    ctx: ReadCtx,
+    who: Who,
+}
+
+impl<T: Send + 'static> IntoFuture for DoneRx<T> {
+    type Output = Result<T, oneshot::error::RecvError>;
+    type IntoFuture = Pin<Box<dyn Future<Output = Self::Output> + Send>>;
+
+    fn into_future(self) -> Self::IntoFuture {
+        Box::pin(async move {
+            if let Some(s) = &self.ctx.sched {
+                let flag = &self.flag;
+                let p = Point {
+                    op: "live.done",
+                    who: Some(self.who),
+                    frame: None,
+                    ready: &|| flag.load(Ordering::SeqCst),
+                };
+                blocking(|| s.point(&p));
+            }
+            self.inner.await
+        })
+    }
+}
+
+// ---- raw dump ------------------------------------------------------------------------------
+
+/// Raw contents of the three partitions plus the in-memory context registry.
+#[derive(Debug, Clone, PartialEq, Eq, Default)]
+pub struct Dump {
+    pub stream: Vec<(Vec<u8>, Vec<u8>)>,
+    pub idx_topic: Vec<Vec<u8>>,
+    pub idx_context: Vec<Vec<u8>>,
+    pub contexts: Vec<scru128::Scru128Id>,
+}
